@@ -149,6 +149,9 @@ func (p *Prog) MustAppear(i int, v Val) bool {
 		return true
 	}
 	o := p.Ops[s.OpIdx]
+	if p.Fin.NoSchema && o.NeedsSchema {
+		return false
+	}
 	if !p.Fin.Builds[o.Clause] || (p.SQLite && o.Clause == "TABLE" && p.Fin.Kind == "create") {
 		return false
 	}
@@ -187,6 +190,9 @@ func (p *Prog) MayAppear(i int) bool {
 		return true
 	}
 	cl := p.Ops[s.OpIdx].Clause
+	if p.Fin.NoSchema && p.Ops[s.OpIdx].NeedsSchema {
+		return false
+	}
 	if p.SQLite && cl == "TABLE" && p.Fin.Kind == "create" {
 		return false
 	}
@@ -273,21 +279,34 @@ func (p *Prog) FullCase() Case {
 }
 
 func uniqueOK(ops []*Op) bool {
-	n := 0
+	seen := map[string]bool{}
+	joins, bareJoin := 0, false
 	for _, o := range ops {
-		if o.Unique {
-			n++
+		if o.UniqueKey != "" {
+			if seen[o.UniqueKey] {
+				return false
+			}
+			seen[o.UniqueKey] = true
+		}
+		if o.Clause == "JOIN" {
+			joins++
+		}
+		if o.BareJoin {
+			bareJoin = true
 		}
 	}
-	return n <= 1
+	return !(bareJoin && joins > 1)
 }
 
 // OpsFor returns the clause-call alphabet: core=true the reduced one,
 // exec=true without the calls marked NoExec.
-func OpsFor(core, exec bool) []*Op {
+func OpsFor(core, exec bool) []*Op { return OpsWith(core, exec, true) }
+
+// OpsWith is OpsFor with the shortest-spelling calls optionally left out.
+func OpsWith(core, exec, bare bool) []*Op {
 	var out []*Op
 	for _, o := range Ops {
-		if (exec && o.NoExec) || (core && !o.Core) {
+		if (exec && o.NoExec) || (core && !o.Core) || (!bare && o.Bare) {
 			continue
 		}
 		out = append(out, o)
